@@ -11,7 +11,7 @@
     certificate validity are oracles: cryptography is not modelled.
     [authenticate] is the code as it is now, i.e. with the fix: commits a3a89b7
     (C05-F1) and f16c3cc (C05-F2); [authenticate_pinned] is the code before them. *)
-From HV Require Import Base.Prelude Base.Time C05.Model C05.Spec C05.Proofs.
+From HV Require Import Base.Prelude Base.Time C05.Model C05.Spec C05.Proofs C05.Cache C05.CacheProofs.
 
 (** A subject is created only if: a key [k] published by the key-set endpoint
     (the unique one with the token's kid, any one if the token has none; with a
@@ -197,3 +197,59 @@ Example C05_nonvacuous :
   authenticate ex_cf ex_keys ex_now (CToken (ex_token None None (Some 1790000011%Z))) = Failed EAssertion.
 Proof. exact nonvacuous. Qed.
 Print Assumptions C05_nonvacuous.
+
+(* ------------------------------------------------------------------ histories: the JWK cache *)
+
+(** [run_history f1 f2 h]: the answers of one authenticator (and its rule-level copies) to the requests [h]
+    against one JWK cache, the published key sets possibly changing in between; the JWKS URL may be a
+    template over the token's unverified issuer.  Every answer is the answer of the cache-less
+    authenticator against the key set that is or was published at the URL rendered for THAT request's token
+    — so a key cached under one (rendered url, kid) is never used for another url or kid —, and against the
+    present one if the request cannot be served from the cache (no kid, or cache disabled). *)
+Theorem C05_cache_history_stateless : forall f1 f2 v h pre s post r,
+  (forall s', In s' h -> cf_validate_jwk (s_cf s') = v) ->
+  h = pre ++ s :: post ->
+  nth_error (run_history f1 f2 h) (length pre) = Some r ->
+  exists env, In env (worlds pre s) /\ (fresh s = true -> env = s_env s) /\ r = stateless f1 f2 s env.
+Proof. exact history_stateless. Qed.
+Print Assumptions C05_cache_history_stateless.
+
+(** hence, against the specification: a subject only if the specification accepts the token against what is
+    or was published at its own key-set URL; and always if it accepts it against all of those *)
+Theorem C05_cache_history_spec : forall v h pre s post r,
+  (forall s', In s' h -> cf_validate_jwk (s_cf s') = v) ->
+  h = pre ++ s :: post ->
+  nth_error (run_history true true h) (length pre) = Some r ->
+  sane_clock (s_cf s) (s_now s) -> guard_F3 (s_cred s) = false ->
+  (forall sub, r = Accepted sub ->
+     exists env, In env (worlds pre s) /\ (fresh s = true -> env = s_env s) /\ spec_in s env = Some sub) /\
+  (forall sub, (forall env, In env (worlds pre s) -> spec_in s env = Some sub) -> r = Accepted sub).
+Proof. exact history_spec. Qed.
+Print Assumptions C05_cache_history_spec.
+
+(** while the published key sets do not change the cache is invisible *)
+Theorem C05_cache_transparent : forall f1 f2 v h pre s post r env0,
+  (forall s', In s' h -> cf_validate_jwk (s_cf s') = v) ->
+  (forall s', In s' h -> s_env s' = env0) ->
+  h = pre ++ s :: post ->
+  nth_error (run_history f1 f2 h) (length pre) = Some r ->
+  r = stateless f1 f2 s env0.
+Proof. exact cache_transparent. Qed.
+Print Assumptions C05_cache_transparent.
+
+(** non-vacuity: tenants sharing a kid behind a templated endpoint; a rotation *)
+Example C05_cache_examples :
+  run_history true true
+    [exc_step true (exc_env 3 4) (exc_tok "tenant-a" "k1" 3);
+     exc_step true (exc_env 3 4) (exc_tok "tenant-b" "k1" 3);
+     exc_step true (exc_env 3 4) (exc_tok "tenant-b" "k1" 4)]
+  = [Accepted "alice"; Failed ESignature; Accepted "alice"] /\
+  run_history true true
+    [exc_step true (exc_env 3 4) (exc_tok "tenant-a" "k1" 3);
+     exc_step true (exc_env 4 4) (exc_tok "tenant-a" "k1" 3);
+     exc_step true (exc_env 4 4) (exc_tok "tenant-a" "k1" 4);
+     exc_step true (exc_env 4 4) (exc_tok "tenant-a" "" 4);
+     exc_step false (exc_env 4 4) (exc_tok "tenant-a" "k1" 4)]
+  = [Accepted "alice"; Accepted "alice"; Failed ESignature; Accepted "alice"; Accepted "alice"].
+Proof. exact (conj cache_cross_tenant cache_rotation). Qed.
+Print Assumptions C05_cache_examples.
